@@ -24,7 +24,6 @@ import (
 	"fmt"
 	"io"
 	"runtime"
-	"runtime/debug"
 	"strings"
 
 	"seehuhn.de/go/membudget"
@@ -539,16 +538,28 @@ func report(ctx *core.Ctx, recs []runRec, bad []int) {
 			a.first = r
 		}
 	}
+	notes := map[string]any{}
 	for _, k := range core.SortedKeys(byKey) {
 		a := byKey[k]
 		var ops []string
 		for i, e := range a.first.Events {
 			ops = append(ops, fmt.Sprintf("%s(%d)@%s=%s", e.Op, e.S, a.first.beh.Ops[i].P, e.Res))
 		}
-		ctx.Violation(k, fmt.Sprintf("package-level zlib pools: %s, %s replay of the behaviour %s: streams end %v; %s [%d replays share the key]",
-			a.first.Surface, a.first.Mode, strings.Join(ops, " "), a.first.Final, a.first.note, a.n),
-			map[string]any{"zpool": true, "surface": a.first.Surface, "mode": a.first.Mode, "behaviour": a.first.beh})
+		what := fmt.Sprintf("package-level zlib pools: %s, %s replay of the behaviour %s: streams end %v; %s [%d replays share the key]",
+			a.first.Surface, a.first.Mode, strings.Join(ops, " "), a.first.Final, a.first.note, a.n)
+		if doubleClose(a.first.beh) {
+			// needs a caller that closes a stream twice: outside C18's statement,
+			// reported as a note of the extension, no influence on the verdict
+			fmt.Printf("NOTE extension=zlib-pool key=%s %s\n", k, what)
+			notes[k] = map[string]any{"replays": a.n, "example": what}
+			continue
+		}
+		ctx.Violation(k, what, map[string]any{"zpool": true, "surface": a.first.Surface, "mode": a.first.Mode, "behaviour": a.first.beh})
 	}
+	ctx.Ev.Set("extension_zlib_pool", map[string]any{
+		"rule":  "interference between streams that needs a caller closing a stream twice is noted, not counted as a violation of C18",
+		"notes": notes,
+	})
 }
 
 func allSurfaces(ctx *core.Ctx) ([]surface, error) {
@@ -587,39 +598,43 @@ func Run(ctx *core.Ctx) error {
 	if err != nil {
 		return err
 	}
-	old := debug.SetGCPercent(-1) // no collection empties the pools in the middle of a replay
-	defer debug.SetGCPercent(old)
-	flushPools()
-
+	// Order of the replays.  What a replay leaves in the pools reaches the next
+	// one, and emptying the pools (two collections) costs ~10 ms, so: per
+	// surface, on empty pools, first every behaviour in which no stream is
+	// closed twice (a failure there involves no misuse of the API), then the
+	// behaviours with a double Close, then the pools are emptied again.
 	var recs []runRec
 	ix := map[string]int{}
 	total := 0
-	for bi := range behs {
-		b := &behs[bi]
-		for _, sf := range sfs {
-			for _, conc := range []bool{false, true} {
-				r := replayOne(sf, b, conc)
-				if r.Surface == "" {
+	add := func(r runRec) {
+		if r.Surface == "" {
+			return
+		}
+		total++
+		s := r.sig()
+		if j, ok := ix[s]; ok {
+			recs[j].Count++
+			return
+		}
+		ix[s] = len(recs)
+		recs = append(recs, r)
+		ctx.Ev.Distinct("zpool/" + s)
+	}
+	for _, sf := range sfs {
+		for _, twice := range []bool{false, true} {
+			flushPools()
+			for bi := range behs {
+				b := &behs[bi]
+				if doubleClose(b) != twice {
 					continue
 				}
-				total++
-				if doubleClose(b) {
-					flushPools() // whatever this replay left in the pools must not reach the next one
+				for _, conc := range []bool{false, true} {
+					add(replayOne(sf, b, conc))
 				}
-				s := r.sig()
-				if j, ok := ix[s]; ok {
-					recs[j].Count++
-					continue
-				}
-				ix[s] = len(recs)
-				recs = append(recs, r)
-				ctx.Ev.Distinct("zpool/" + s)
 			}
 		}
-		if bi%400 == 0 {
-			flushPools()
-		}
 	}
+	flushPools()
 	ctx.Ev.Eval(total)
 	ctx.Ev.AddReplayed(total)
 	ctx.Ev.Set("zpool_behaviours", len(behs))
@@ -664,8 +679,6 @@ func Replay(ctx *core.Ctx, raw json.RawMessage) (handled bool, err error) {
 		return true, core.Infra("zpool: %v", err)
 	}
 	sfs = append(sfs, more...)
-	old := debug.SetGCPercent(-1)
-	defer debug.SetGCPercent(old)
 	flushPools()
 	for _, sf := range sfs {
 		if sf.name != c.Surface {
